@@ -33,7 +33,7 @@ impl SnapshotTasks {
 //@extract src/taskdb/snapshot.rs :: fn make_snapshot
 pub fn make_snapshot(txn: &mut dyn StorageTxn) -> (r: Result<Vec<u8>>)
     requires old(txn).inv(),
-    ensures final(txn).inv(), final(txn).st() == old(txn).st(),
+    ensures final(txn).inv(), final(txn).st() == old(txn).st(), final(txn).stored() == old(txn).stored(),
         //@ob C12 make_snapshot.encodes-exactly-the-current-task-set
         match r {
             Ok(b) => snap_decodable(b@) && snap_decode(b@) == old(txn).st().tasks,
@@ -51,15 +51,13 @@ pub fn apply_snapshot(
     version: VersionId,
     snapshot: &[u8],
 ) -> (r: Result<()>)
-    requires old(txn).inv(), !old(txn).st().committed,
-    ensures final(txn).inv(),
+    requires old(txn).inv(),
+    ensures final(txn).inv(), final(txn).stored() == old(txn).stored(),
         //@ob C12 apply_snapshot.never-replaces-existing-data
         !is_empty_view(old(txn).st()) ==> r is Err && final(txn).st() == old(txn).st(),
         //@ob C12 apply_snapshot.installs-exactly-the-decoded-task-set-and-its-version
         r is Ok ==> is_empty_view(old(txn).st())
             && (snap_decodable(snapshot@) ==> final(txn).st() == (TxnView { tasks: snap_decode(snapshot@), base: version, ..old(txn).st() })),
-        // an error may leave a partly written, uncommitted transaction, which the caller drops
-        r is Err ==> final(txn).st().committed == old(txn).st().committed,
         r matches Err(e) ==> storage_err(e) || (e is Database),
 {
     let ghost s0 = txn.st();
@@ -74,7 +72,7 @@ pub fn apply_snapshot(
     for (uuid, task) in it_uuid: drain_all(&mut all_tasks.into_inner())
         invariant
             it_uuid.seq() == lst, s0 == old(txn).st(), is_empty_view(s0),
-            txn.inv(), !txn.st().committed,
+            txn.inv(), txn.stored() == old(txn).stored(),
             txn.st() == (TxnView { tasks: txn.st().tasks, ..s0 }),
             forall|t: State| tasks_listed(lst, t) ==> listed_prefix(lst, t, it_uuid.index() as int, txn.st().tasks),
     {
